@@ -383,6 +383,12 @@ func (l *Line) Lines() int {
 	return len(lines)
 }
 
+// tokenLen is the length of a token in characters, the unit of cursor positions
+// (tokens are strings: their len() counts bytes).
+func tokenLen(token string) int {
+	return utf8.RuneCountInString(token)
+}
+
 // Forward returns the offset to the beginning of the next
 // (forward) token determined by the tokenizer function.
 func (l *Line) Forward(tokenizer Tokenizer, pos int) (adjust int) {
@@ -394,7 +400,7 @@ func (l *Line) Forward(tokenizer Tokenizer, pos int) (adjust int) {
 	case index+1 == len(split):
 		adjust = l.Len() - pos
 	default:
-		adjust = len(split[index]) - pos
+		adjust = tokenLen(split[index]) - pos
 	}
 
 	return
@@ -411,14 +417,14 @@ func (l *Line) ForwardEnd(tokenizer Tokenizer, pos int) (adjust int) {
 	word := strings.TrimRightFunc(split[index], unicode.IsSpace)
 
 	switch {
-	case index == len(split)-1 && pos >= len(word)-1:
+	case index == len(split)-1 && pos >= tokenLen(word)-1:
 		return
-	case pos >= len(word)-1:
+	case pos >= tokenLen(word)-1:
 		word = strings.TrimRightFunc(split[index+1], unicode.IsSpace)
-		adjust = len(split[index]) - pos
-		adjust += len(word) - 1
+		adjust = tokenLen(split[index]) - pos
+		adjust += tokenLen(word) - 1
 	default:
-		adjust = len(word) - pos - 1
+		adjust = tokenLen(word) - pos - 1
 	}
 
 	return
@@ -435,7 +441,7 @@ func (l *Line) Backward(tokenizer Tokenizer, pos int) (adjust int) {
 	case index == 0 && pos == 0:
 		return
 	case pos == 0:
-		adjust = len(split[index-1])
+		adjust = tokenLen(split[index-1])
 	default:
 		adjust = pos
 	}
@@ -496,14 +502,14 @@ func (l *Line) Tokenize(cpos int) ([]string, int, int) {
 		// of the line, where rl.pos = linePos + 1, so...
 		if i == cpos {
 			index = len(split) - 1
-			pos = len(split[index]) - 1
+			pos = tokenLen(split[index]) - 1
 		}
 	}
 
 	// ... so we adjust here for this case.
 	if cpos == len(line) {
 		index = len(split) - 1
-		pos = len(split[index])
+		pos = tokenLen(split[index])
 	}
 
 	return split, index, pos
@@ -553,14 +559,14 @@ func (l *Line) TokenizeSpace(cpos int) ([]string, int, int) {
 		// of the line, where rl.pos = linePos + 1, so...
 		if i == cpos {
 			index = len(split) - 1
-			pos = len(split[index]) - 1
+			pos = tokenLen(split[index]) - 1
 		}
 	}
 
 	// ... so we adjust here for this case.
 	if cpos == len(line) {
 		index = len(split) - 1
-		pos = len(split[index])
+		pos = tokenLen(split[index])
 	}
 
 	return split, index, pos
